@@ -29,6 +29,7 @@ type Prog struct {
 	fdCache  map[string]*FieldDecl
 	depCache map[string]map[*ssa.Function]bool
 	depIface map[string]map[string]bool // prop -> "pkgpath::Iface.Method" invoked by the property's functions
+	refinedSet map[*ssa.Function]bool
 }
 
 func loadProg(repo string, patterns []string) *Prog {
